@@ -481,8 +481,12 @@ feederLoop:
 					child.responseResult = errTimedOut
 					child.broker.acks.Done()
 				remainingLoop:
-					for _, msg = range msgs[i:] {
-						child.interceptors(msg)
+					for j := range msgs[i:] {
+						msg = msgs[i+j]
+						// msgs[i] has already been through the interceptors above
+						if j > 0 {
+							child.interceptors(msg)
+						}
 						select {
 						case child.messages <- msg:
 						case <-child.dying:
